@@ -12,7 +12,9 @@ SHARDS = {'quick': 8, 'thorough': 16}
 RULE = ('(construct) every length 1..300 (quick) / 1..4096 (thorough) x a list of decimal/binary/irrational spacings x '
         '{dr,dk} is enumerated and the grid compared with r_i=(i+1)dr, k_j=(j+1)dk, dr*dk*length=pi; '
         '(setters) Hypothesis state machine over set_dr/set_dk/set_length with model (length,dr): after every step the '
-        'object is compared with the formula grid and with a freshly constructed Domain(length,dr); '
+        'object is compared with the formula grid and with a freshly constructed Domain(length,dr); transforms are run through the '
+        'object directly after a setter (before any attribute is read) and after earlier transforms, and compared with the same transform '
+        'on a fresh Domain; '
         '(transforms) generated domains x generated real arrays / symmetric MatrixArrays of rank 1-4: linearity, both '
         'round trips within the DST rounding bound, pairwise identity of MatrixArray and vector transforms, symmetry, '
         'space flag, refusal of a repeated transform. Non-trivial = length not a power of two, or a setter history with '
@@ -138,10 +140,38 @@ class Setters(History):
         return specs.domain_spec(1024)
 
     def ops(self, tier):
-        return {'set_dr': {'value': specs.spacing()},
-                'set_dk': {'value': specs.spacing()},
-                'set_length': {'value': specs.length(1024)},
+        # probe: transform an array immediately after the assignment, before any grid attribute is read (a lazily rebuilt
+        # grid must not be observable through any access path)
+        probe = st.one_of(st.none(), specs.array_desc())
+        return {'set_dr': {'value': specs.spacing(), 'probe': probe},
+                'set_dk': {'value': specs.spacing(), 'probe': probe},
+                'set_length': {'value': specs.length(1024), 'probe': probe},
                 'roundtrip': {'array': specs.array_desc()}}
+
+    def probe(self, state, desc, out, which):
+        """transform through the object and through a freshly constructed Domain(length, dr) of the model; no attribute of the
+        object is read before the transform"""
+        P = target()
+        sig = PID + '/setters/'
+        n = state['length']
+        f = build.array(desc, n)
+        fresh = P.Domain(length=n, dr=state['dr'])
+        if len(fresh.r) != n or len(fresh.k) != n:
+            return
+        for name in (('to_fourier', 'to_real') if which % 2 == 0 else ('to_real', 'to_fourier')):
+            try:
+                got = np.asarray(getattr(state['dom'], name)(f.copy()))
+            except Exception as exc:   # noqa
+                out.fail(sig + 'transform-after-setter-raises', '%s raised %s: %s directly after a setter (model length=%d dr=%r)' % (
+                    name, type(exc).__name__, exc, n, state['dr']))
+                return
+            want = np.asarray(getattr(fresh, name)(f.copy()))
+            scale = float(np.max(np.abs(want))) + 1e-300
+            if got.shape != want.shape or not np.all(np.abs(got - want) <= 1e-10 * scale):
+                out.fail(sig + 'transform-differs-from-fresh-domain', '%s on a Domain configured through setters differs from the same transform on a fresh '
+                         'Domain(length=%d, dr=%r): max rel. diff %.3g' % (name, n, state['dr'],
+                                                                          float(np.max(np.abs(got - want))) / scale if got.shape == want.shape else float('nan')))
+                return
 
     def init(self, params, out):
         dom = build.domain(params)
@@ -169,10 +199,17 @@ class Setters(History):
             state['nset'] += 1
             state['nlen'] += 1
         elif op['op'] == 'roundtrip':
-            if build.grid_ok(dom):
+            self.probe(state, op['array'], out, state['nset'])
+            if not out.violations and build.grid_ok(dom):
                 f = build.array(op['array'], dom.length)
                 roundtrip_vector(dom, f, out, PID + '/setters/')
+            state['ntransform'] = state.get('ntransform', 0) + 1
             return
+        if op.get('probe') is not None:
+            state['nprobe'] = state.get('nprobe', 0) + 1
+            self.probe(state, op['probe'], out, state['nset'])
+            if out.violations:
+                return
         self.compare(state, out, dk_given)
 
     def compare(self, state, out, dk_given=None):
@@ -188,6 +225,11 @@ class Setters(History):
             out.label('has-set_dk')
         if any(o['op'] == 'roundtrip' for o in trace):
             out.label('has-roundtrip')
+        if state.get('nprobe'):
+            out.label('transform-directly-after-setter')
+        kinds = [o['op'] for o in trace]
+        if any(a == 'roundtrip' and b.startswith('set_') for a, b in zip(kinds, kinds[1:])):
+            out.label('setter-after-transform')
 
 
 def fwd_bound(dom, f):
